@@ -169,6 +169,41 @@ def run(rep):
               'tb_str resource is not the given error text: %r' % vals.get('tb_str'), flaw, res)
     rep.floor('R20.b', 7)
 
+    # the embedded asset application must not pre-empt the catch-all page: every error it raises is non-breaking
+    from .c14 import check_nonbreaking
+    if check_nonbreaking(rep, 'R20.b') < 4:
+        raise AnalysisError('static serving raises not found')
+    ok = any(isinstance(e, ast.Tuple) and len(e.elts) == 2 and isinstance(e.elts[1], ast.Call) and call_name(e.elts[1]) == 'StaticApplication'
+             for e in routes.elts)
+    idx_static = [i for i, e in enumerate(routes.elts) if isinstance(e, ast.Tuple) and len(e.elts) == 2]
+    idx_catch = [i for i, e in enumerate(routes.elts) if isinstance(e, ast.Tuple) and isinstance(e.elts[0], ast.Constant) and '*>' in str(e.elts[0].value)]
+    rep.check('R20.b', fkey(ca, 'catch-all last'), bool(idx_catch) and idx_catch[-1] == len(routes.elts) - 1,
+              'the catch-all page route is the last route (everything not served before it gets the page)' if idx_catch and idx_catch[-1] == len(routes.elts) - 1 else
+              'the catch-all route is not the last route', flaw, routes)
+    # the monitored-file list that is shown is the list that was given: filtering builds new lists, nothing removes
+    # entries from the caller's list (sorting it in place keeps its content)
+    from .. import effects
+    for fq in ('create_app', '_filter_site_files'):
+        ffi = flaw.func(fq)
+        alias = set(ffi.params())
+        for s in stmts_of(ffi.node):
+            if isinstance(s, ast.Assign) and isinstance(s.targets[0], ast.Name):
+                v = s.value
+                cands = [v] + (list(v.values) if isinstance(v, ast.BoolOp) else []) + ([v.body, v.orelse] if isinstance(v, ast.IfExp) else [])
+                if any(isinstance(x, ast.Name) and x.id in alias for x in cands):
+                    alias.add(s.targets[0].id)
+        shrink = [e for e in effects.effects_in(ffi.node) if e.root in alias and
+                  ((e.kind == 'mutcall' and e.method in ('remove', 'pop', 'clear', 'popitem', 'discard')) or e.kind == 'delete' or
+                   (e.kind == 'store' and isinstance(e.target, ast.Subscript)))]
+        rep.check('R20.b', fkey(ffi, 'input lists keep their entries'), not shrink,
+                  'no entry is removed from the given file list (filters build new lists)' if not shrink else
+                  '%s removes entries from the caller\'s monitored-file list in place (%s): the page (and the reloader that owns the list) '
+                  'loses files' % (fq, [short(e.node) for e in shrink]), flaw, shrink[0].node if shrink else ffi.node)
+    vals_ = dict((k.value, norm(v)) for k, v in zip(res.keys, res.values) if isinstance(k, ast.Constant))
+    ok = vals_.get('all_mon_files') == ca.params()[1]
+    rep.check('R20.b', fkey(ca, 'all_mon_files resource'), ok, 'the full file list shown is the list that was given' if ok else
+              'all_mon_files is not the given monitored_files list', flaw, res)
+
     # ---- R20.c -----------------------------------------------------------
     rep.rule('R20.c', 'every reference in _FLAW_TEMPLATE is HTML-escaped; autoescaping is never switched off')
     try:
